@@ -143,6 +143,7 @@ def run(tier, seed):
     rep.add('ENERGY.nonneg', 'all', 'bxdecay0/', '%d emission sites with a constant energy argument: all >= 0' % nen,
             not any(i.rule == 'ENERGY.nonneg' and not i.ok for i in rep.instances))
     rep.analysed['emission sites with constant energy'] = nen
+    _delays(rep, flows)
     _counts(rep, ctx, flows, cg)
     _loops(rep, flows)
     _nan_exits(rep, ctx)
@@ -156,6 +157,151 @@ def run(tier, seed):
     rep.assumptions += ['not decided: a bound on the number of deviates per shot (acceptance probabilities are numerical), '
                         'finiteness of sampled (non-constant) energies, termination of deterministic loops']
     return rep
+
+
+def _delays(rep, flows):
+    """TIMES.delay: every exponential delay  -(T / ln 2) log(u)  is computed from a half-life T that cannot be negative there"""
+    from .. import cpp2ir
+    rep.rule('TIMES.delay', 'wherever a delay is drawn as (T / ln 2) log(u), the half-life T is a non-negative literal (or a local only '
+             'assigned such), or the draw lies on the `T > 0` side of a test of T, or - T being a parameter - every call site passes a '
+             'half-life that is non-negative by the same rule (followed through forwarding parameters): a negative T makes the '
+             'emission time precede the creation time')
+    info = {}
+    for k, (fn, g, side) in flows.items():
+        nm = fn['qn'].split('::')[-1]
+        cal = side.callee(nm)
+        cal = tv.CALLEE_ALIAS.get(cal, cal)
+        kept = [side.var(p['name'])[1] for p in fn['params'] if p['ty'] not in cpp2ir.CTX_TYPES and p['name'] != '']
+        defs = {}
+        for n in g.nodes:
+            d = tv.node_def(n)
+            if d and n.kind == 'assign' and n.stmt[1][0] == 'var':
+                defs.setdefault(d, []).append(n)
+        info[k] = (cal, kept, defs)
+    bycal = {}
+    for k, (cal, kept, defs) in info.items():
+        bycal.setdefault((cal, len(kept)), []).append(k)
+
+    def guarded(g, n, T):
+        """n lies only on the side of some test of T where T > 0"""
+        for b in g.nodes:
+            if b.kind != 'branch' or len(b.succ) != 2 or b.succ[0] == b.succ[1]:
+                continue
+            c, flip = b.stmt[1], False
+            while c[0] == 'op' and c[1] == 'not' and len(c) == 3:
+                c, flip = c[2], not flip
+            pos = None
+            if c[0] == 'op' and len(c) == 4:
+                o, a, b2 = c[1], c[2], c[3]
+                zero_a, zero_b = (a[0] == 'num' and a[1] == 0), (b2[0] == 'num' and b2[1] == 0)
+                if (o == '<' and zero_a and b2 == T) or (o == '>' and a == T and zero_b):
+                    pos = 0            # true side has T > 0
+                elif (o == '<=' and a == T and zero_b) or (o == '>=' and zero_a and b2 == T):
+                    pos = 1            # false side has T > 0
+            if pos is None:
+                continue
+            if flip:
+                pos = 1 - pos
+            r_in, r_out = g.reachable(b.succ[pos]), g.reachable(b.succ[1 - pos])
+            if n.id in r_in and n.id not in r_out:
+                return True
+        return False
+
+    def nonneg(k, e, n, seen, depth=0):
+        """(True, None) | (False, reason) | (None, reason = cannot follow)"""
+        fn, g, side = flows[k]
+        cal, kept, defs = info[k]
+        if e[0] == 'num':
+            return (True, None) if e[1] >= 0 else (False, 'the literal %s (%s)' % (float(e[1]), where(fn, n.line)))
+        if n is not None and guarded(g, n, e):
+            return True, None
+        if e[0] == 'var':
+            v = e[1]
+            if v in kept:
+                i = kept.index(v)
+                if (k, i) in seen or depth > 6:
+                    return True, None
+                seen = seen | {(k, i)}
+                sites = 0
+                for k2, (fn2, g2, side2) in flows.items():
+                    for m in g2.nodes:
+                        if m.kind == 'call' and (m.stmt[1], len(m.stmt[2])) == (cal, len(kept)) or \
+                                (m.kind == 'call' and tv.CALLEE_ALIAS.get(m.stmt[1], m.stmt[1]) == cal and len(m.stmt[2]) == len(kept)):
+                            sites += 1
+                            ok, why = nonneg(k2, m.stmt[2][i], m, seen, depth + 1)
+                            if ok is not True:
+                                return ok, '%s <- argument `%s` of %s(...) at %s' % (why, ir.fmt(m.stmt[2][i])[:30], cal, where(fn2, m.line))
+                    for m in g2.nodes:
+                        if m.stmt is None or m.kind == 'call':
+                            continue
+                        for ex_ in m.stmt[1:]:
+                            if not isinstance(ex_, tuple):
+                                continue
+                            for x in ir.subexprs(ex_):
+                                if x[0] == 'call' and tv.CALLEE_ALIAS.get(x[1], x[1]) == cal and len(x) - 2 == len(kept):
+                                    sites += 1
+                                    ok, why = nonneg(k2, x[2 + i], m, seen, depth + 1)
+                                    if ok is not True:
+                                        return ok, '%s <- argument `%s` of %s(...) at %s' % (why, ir.fmt(x[2 + i])[:30], cal, where(fn2, m.line))
+                if not sites:
+                    return None, 'no call site of %s found to follow the parameter `%s`' % (cal, v)
+                return True, None
+            ds = defs.get(v, [])
+            if n is not None:
+                ds = [d for d in ds if n.id in g.reachable(d.id)]          # only definitions that can flow to this use
+            for d in ds:
+                ok, why = nonneg(k, d.stmt[2], d, seen, depth + 1)
+                if ok is not True:
+                    return ok, '%s <- `%s = %s` at %s' % (why, v, ir.fmt(d.stmt[2])[:40], where(fn, d.line))
+            return True, None
+        if e[0] == 'op' and e[1] in ('+', '*', 'max', '/') and len(e) > 3:
+            for x in e[2:]:
+                ok, why = nonneg(k, x, n, seen, depth + 1)
+                if ok is not True:
+                    return ok, why
+            return True, None
+        if e[0] == 'op' and e[1] == '-' and len(e) == 4 and e[2][0] == 'num' and e[3][0] == 'num':
+            v_ = e[2][1] - e[3][1]
+            return (True, None) if v_ >= 0 else (False, 'the constant expression `%s` = %s (%s)' % (ir.fmt(e), float(v_), where(fn, n.line) if n is not None else '?'))
+        return None, 'expression `%s` is not of a recognised form' % ir.fmt(e)[:60]
+
+    nd = 0
+    for k, (fn, g, side) in sorted(flows.items()):
+        for n in g.nodes:
+            if n.stmt is None or n.kind not in ('assign', 'return'):
+                continue
+            e = n.stmt[2] if n.kind == 'assign' else n.stmt[1]
+            if not isinstance(e, tuple) or ir.count_draws(e) != 1:
+                continue
+            logs = [x for x in ir.subexprs(e) if x[0] == 'op' and x[1] == 'log' and len(x) == 3 and x[2] == ('draw',)]
+            if not logs:
+                continue
+            # the product (or quotient) that contains log(u): its other variable factors are the half-life
+            prods = [x for x in ir.subexprs(e) if x[0] == 'op' and x[1] in ('*', '/') and logs[0] in x[2:]]
+            if not prods:
+                continue
+            P = prods[0]
+            Ts = []
+            for f_ in P[2:]:
+                if f_ == logs[0]:
+                    continue
+                Ts += [x for x in ir.subexprs(f_) if x[0] == 'var' and not (len(x) > 1 and str(x[1]).startswith('$'))]
+            if not Ts:
+                continue
+            nd += 1
+            verdicts = [nonneg(k, T, n, frozenset()) for T in Ts]
+            key = '%s:%s' % (fn['name'], '*'.join(ir.fmt(T) for T in Ts))
+            desc = '%s: the delay `%s` is drawn from a half-life that cannot be negative here' % (fn['name'], ir.fmt(P)[:50])
+            if any(v[0] is False for v in verdicts):
+                rep.add('TIMES.delay', key, where(fn, n.line), desc, False,
+                        ['a negative half-life reaches this draw unguarded: %s' % [v[1] for v in verdicts if v[0] is False][0],
+                         'only a test `T > 0` keeps the emission time from preceding the creation time (`T == 0` does not)'])
+            elif any(v[0] is None for v in verdicts):
+                rep.cannot_decide('TIMES.delay', where(fn, n.line), '%s: %s' % (fn['name'], [v[1] for v in verdicts if v[0] is None][0]))
+            else:
+                rep.add('TIMES.delay', key, where(fn, n.line), desc, True)
+    rep.analysed['exponential-delay draws'] = nd
+    rep.floor('TIMES.delay', nd, 60)
 
 
 def _species_ok(code, defs, params):
